@@ -1,7 +1,7 @@
 #!/bin/bash
 # tools/run_all.sh [tier] [seed] : run every registered check, print exit code and wall time
 tier=${1:-quick}; seed=${2:-0}
-cd /verif
+cd "$(dirname "$0")/.." && mkdir -p out/logs out/replays
 for id in ${IDS:-$(python3 -c "import json;print(' '.join(c['property_id'] for c in json.load(open('MANIFEST.json'))['checks']))")}; do
   t0=$(date +%s)
   VERIF_SEED=$seed timeout 14000 ./check $id $tier > out/logs/run_${id}_${tier}_${seed}.log 2>&1; rc=$?
